@@ -372,6 +372,32 @@ func Eq(a, b *Term) *Term {
 	if b.Sort == Bool && a.IsConst() {
 		return Eq(b, a)
 	}
+	// integer equation  c == k + x  (x one atom with coefficient 1): one normal form  x == c - k
+	if a.Sort == Int && b.Sort == Int {
+		cst, other := a, b
+		if !cst.IsConst() {
+			cst, other = b, a
+		}
+		if cst.IsConst() && other.Op == "+" {
+			pl := PolyOf(other)
+			var k *big.Int
+			var atom *Term
+			okShape := len(pl.Terms) == 2
+			for _, t := range pl.Terms {
+				switch {
+				case len(t.Atoms) == 0:
+					k = t.Coef
+				case len(t.Atoms) == 1 && t.Atoms[0].E.Cmp(big.NewInt(1)) == 0 && t.Coef.Cmp(big.NewInt(1)) == 0:
+					atom = t.Atoms[0].A
+				default:
+					okShape = false
+				}
+			}
+			if okShape && k != nil && atom != nil && atom.Op != "+" {
+				return Eq(Const(Int, new(big.Int).Sub(cst.C, k)), atom)
+			}
+		}
+	}
 	return App(Bool, "eq", a, b)
 }
 
